@@ -236,7 +236,7 @@ def validate(area, module, traces, cfg=None, env=None, workers=None, chunk=None,
             r = tlc(area, module, cfg, env=e, workers=w, timeout=timeout)
         finally:
             os.unlink(f)
-        expected = sum(len(t["ev"]) + 1 if "ev" in t else 2 for t in part)
+        expected = sum((len(t["ev"]) + 1 if ("ev" in t and not t.get("_single")) else 2) for t in part)
         rej = r.tuples("REJECT")
         # a rejected multi-event trace stops early: it contributes fewer states
         if not rej and r.distinct != expected:
